@@ -13,6 +13,7 @@ OB_FILES = ["Obligations.v", "ObligationsReply.v"]
 KEY_GRACE = "half-closed-tunnel-cut-after-grace-period"
 KEY_2XX_BODY = "upstream-connect-2xx-declares-body"
 KEY_READ_TIMEOUT = "tunnel-cut-at-request-read-timeout"
+KEY_WRITE_TIMEOUT = "tunnel-cut-at-response-write-timeout"
 
 
 def load_jsonl(p):
@@ -44,6 +45,8 @@ def classify(rec):
         return KEY_2XX_BODY
     if p.get("read_timeout_ms") and rec["dirs"][0]["eof_early"] and rec["dirs"][0]["first_diff"] == -1:
         return KEY_READ_TIMEOUT  # the target saw end-of-stream before the client shut down, on an intact prefix
+    if p.get("read_timeout_ms") and rec["dirs"][1]["eof_early"] and rec["dirs"][1]["first_diff"] == -1:
+        return KEY_WRITE_TIMEOUT  # the client saw end-of-stream before the target shut down
     why = []
     for d, name in ((0, "client-to-target"), (1, "target-to-client")):
         o = rec["dirs"][d]
@@ -98,6 +101,12 @@ def run(ctx):
     if not ok:
         ctx.log("tables:", msg)
         ob_failed.append("translator(gen/tables g03): " + msg)
+    else:
+        # the fallback tables must define what the model reads, or a SHAPE-NOT-FOUND run cannot even compile Check.v
+        gdir = os.path.join(common.VERIF, "coq", GROUP)
+        names = lambda f: set(re.findall(r"Definition (\w+)", open(os.path.join(gdir, f)).read())) if os.path.exists(os.path.join(gdir, f)) else set()
+        if names("Tables.default") != names("Tables.v"):
+            ctx.notes.append({"tables_default_stale": sorted(names("Tables.v") ^ names("Tables.default"))})
     ok, log, failed = ctx.coq_make(GROUP)
     core_broken = [f for f in failed if f not in PROP_FILES + OB_FILES]
     if not ok:
